@@ -52,20 +52,20 @@ func selfTest(ctx *core.Ctx) error {
 		}
 		fmt.Printf("selftest: %s fails as it must (%s)\n", nc.cfg, got)
 	}
-	// coverage of the design models: no action that is never taken
-	for _, w := range walkers {
-		res, err := ctx.TLC(core.TLCOpts{Dir: "robust", Module: "MC_Walk", Cfg: "MC_Walk_" + w + "_q.cfg", Mode: "exhaustive", Workers: 1, Coverage: true, Timeout: 5 * time.Minute, Quiet: true})
+	// coverage of the design model: no action that is never taken
+	{
+		res, err := ctx.TLC(core.TLCOpts{Dir: "robust", Module: "MC_Walk", Cfg: "MC_Walk_q.cfg", Mode: "exhaustive", Workers: 1, Coverage: true, Timeout: 5 * time.Minute, Quiet: true})
 		if err != nil {
 			return err
 		}
 		var zero []string
 		for _, z := range res.ZeroCoverage {
-			if actionOf[z] == w {
+			if actionOf[z] != "" {
 				zero = append(zero, z)
 			}
 		}
 		if len(zero) > 0 || !res.OK() {
-			return core.Infra("self-test: MC_Walk_%s_q: ok=%v, actions never taken: %v", w, res.OK(), zero)
+			return core.Infra("self-test: MC_Walk_q: ok=%v, actions never taken: %v", res.OK(), zero)
 		}
 	}
 	fmt.Println("selftest: every action of every walker is taken in the quick models")
